@@ -51,6 +51,9 @@ type c13Case struct {
 	// list built without the constructor: one or both definition maps are nil (Source "" only)
 	NilStyles  bool `json:"nil_styles_map,omitempty"`
 	NilRegions bool `json:"nil_regions_map,omitempty"`
+	// CopyRefs (Source ""): cues and runs point at their own Style values (same identifier, no inheritance link) instead
+	// of the objects stored in the map, as after a Merge or in a list put together by hand; definitions go by identifier
+	CopyRefs bool `json:"copy_refs,omitempty"`
 }
 
 func init() { register("c13", checkC13) }
@@ -171,8 +174,14 @@ func buildC13(c c13Case) (*astisub.Subtitles, string) {
 		if cu.Bare {
 			it.InlineStyle = nil
 		}
+		ref := func(id string) *astisub.Style {
+			if c.CopyRefs {
+				return &astisub.Style{ID: id, InlineStyle: &astisub.StyleAttributes{SSAFontName: "copy" + id}}
+			}
+			return s.Styles[id]
+		}
 		if cu.Style != "" {
-			it.Style = s.Styles[cu.Style]
+			it.Style = ref(cu.Style)
 		}
 		if cu.Region != "" {
 			it.Region = s.Regions[cu.Region]
@@ -181,7 +190,7 @@ func buildC13(c c13Case) (*astisub.Subtitles, string) {
 		for _, r := range cu.Runs {
 			li := astisub.LineItem{Text: r.Text, InlineStyle: &astisub.StyleAttributes{SRTBold: true}}
 			if r.Style != "" {
-				li.Style = s.Styles[r.Style]
+				li.Style = ref(r.Style)
 			}
 			ln.Items = append(ln.Items, li)
 		}
@@ -385,7 +394,7 @@ func checkC13(c c13Case) string {
 	if c.Source == "ssa" || c.Source == "vtt" {
 		// parsed sources carry definitions the case model does not list (e.g. the WebVTT default style): traverse the object graph
 		wantS, wantR = reachOf(s)
-	} else if gs, gr := reachOf(s); fmt.Sprint(len(gs), len(gr)) != fmt.Sprint(len(wantS), len(wantR)) {
+	} else if gs, gr := reachOf(s); !c.CopyRefs && fmt.Sprint(len(gs), len(gr)) != fmt.Sprint(len(wantS), len(wantR)) {
 		return fmt.Sprintf("harness: model closure (%d styles, %d regions) and object-graph closure (%d, %d) disagree", len(wantS), len(wantR), len(gs), len(gr))
 	}
 	s.Optimize()
@@ -514,8 +523,14 @@ func TestC13(t *testing.T) {
 			c.Regions = append(c.Regions, rg)
 		}
 		nc := rapid.SampledFrom([]int{0, 1, 1, 2, 3, 4}).Draw(rt, "ncues")
+		unordered := c.Source == "" && rapid.IntRange(0, 2).Draw(rt, "unordered") == 0
+		c.CopyRefs = c.Source == "" && rapid.IntRange(0, 3).Draw(rt, "copyrefs") == 0
 		for i := 0; i < nc; i++ {
 			cu := c13Cue{Start: int64(i) * 2000, End: int64(i)*2000 + 1500}
+			if unordered {
+				// cues in any order: nothing in the property asks for an ordered list
+				cu.Start, cu.End = int64(nc-1-i)*2000, int64(nc-1-i)*2000+1500
+			}
 			cu.Bare = c.Source == "" && rapid.IntRange(0, 2).Draw(rt, "bare") == 0
 			if ns > 0 && rapid.IntRange(0, 2).Draw(rt, "cstyle") == 0 {
 				cu.Style = ids[rapid.IntRange(0, ns-1).Draw(rt, "cstyleid")]
@@ -565,6 +580,12 @@ func TestC13(t *testing.T) {
 			ls = append(ls, "remove-styling")
 		}
 		ls = append(ls, "source-"+c.Source)
+		if c.CopyRefs {
+			ls = append(ls, "cues-hold-their-own-style-values")
+		}
+		if unordered && nc > 1 {
+			ls = append(ls, "unordered-cues")
+		}
 		if c.NilStyles != c.NilRegions {
 			ls = append(ls, "one-definition-map-nil")
 		}
